@@ -202,6 +202,13 @@ func IllFormed() []Ill {
 			}
 		}
 	}
+	// ZADD with the INCR option: exactly one score/member pair, nothing dangling or null behind it
+	add("ZADD", toB([]string{"ZADD", "ik", "INCR", "1", "ma", "2"}), "dangling-half", 5)
+	add("ZADD", toB([]string{"ZADD", "ik", "INCR", "1", "ma", "abc", "mb"}), "non-numeric:abc", 5)
+	add("ZADD", [][]byte{[]byte("ZADD"), []byte("ik"), []byte("INCR"), []byte("1"), []byte("ma"), nil}, "null", 5)
+	add("ZADD", [][]byte{[]byte("ZADD"), []byte("ik"), []byte("INCR"), []byte("1"), []byte("ma"), []byte("2"), nil}, "null", 6)
+	add("ZADD", toB([]string{"ZADD", "ik", "INCR", "1"}), "omitted", 4)
+	add("ZADD", toB([]string{"ZADD", "ik", "XX", "INCR", "1", "ma", "2"}), "dangling-half", 6)
 	// the two-argument form of AUTH
 	add("AUTH", [][]byte{[]byte("AUTH"), []byte("default"), nil}, "null", 2)
 	add("AUTH", [][]byte{[]byte("AUTH"), nil, []byte("sesame")}, "null", 1)
